@@ -15,13 +15,13 @@ RULE = ('Rotation matrices built with an own Rodrigues formula from (axis, angle
         '(2uu^T-I, axis-aligned and oblique), exact identity, negative angles. Every case goes through all seven '
         'method/version choices (shepperd, hughes, chiaverini, itzhack v1-3, sarabandi with threshold in [-1,1] incl. 0) and '
         'every entry point (DCM.to_quaternion, DCM.to_q, Quaternion(dcm=), QuaternionArray(DCM=) row k of N, the bare '
-        'orientation function, its Nx3x3 form). Oracle: real dtype, shape (4,), finite, unit to 1e-12, own q->R of the '
+        'orientation function, its Nx3x3 form; in half of the batches the other rows are the same rotation moved on by 1e-12..1e-3 rad, a slowly varying sequence). Oracle: real dtype, shape (4,), finite, unit to 1e-12, own q->R of the '
         'result equals R (1e-10 for shepperd/itzhack everywhere; 2e-7 for the three closed forms on angle <= pi-1e-6; beyond '
         'that the closed forms are labelled, not judged). Non-trivial: angle class != generic, or the Shepperd pivot is '
         'not the trace; distinct = case hash.')
 ASSUMPTIONS = ['Rodrigues construction is orthogonal to 2 ulp; inputs within 1e-12 of SO(3) are what "rotation matrix" means',
                'tolerances of DESIGN.md section 2.5 (sqrt(eps) loss of the sqrt(1+trace) closed forms)']
-REQUIRED_LABELS = ['dcm2q:cls=exact_pi', 'dcm2q:cls=tiny', 'dcm2q:cls=small', 'dcm2q:cls=near_pi', 'dcm2q:cls=zero',
+REQUIRED_LABELS = ['dcm2q:batch=slowly_varying', 'dcm2q:cls=exact_pi', 'dcm2q:cls=tiny', 'dcm2q:cls=small', 'dcm2q:cls=near_pi', 'dcm2q:cls=zero',
                    'dcm2q:pivot=1', 'dcm2q:pivot=2', 'dcm2q:pivot=3']
 
 METHODS = [('shepperd', {}), ('hughes', {}), ('chiaverini', {}), ('itzhack', {'version': 1}),
@@ -46,6 +46,10 @@ def _case():
         n = draw(st.integers(1, 4))
         idx = draw(st.integers(0, n-1))
         filler = [[draw(gen.axes()), draw(gen.fl(0.05, 3.0))] for _ in range(n-1)]
+        if n > 1 and draw(st.booleans()):
+            # a slowly varying sequence (what a time series looks like): the other rows are the same rotation moved on by
+            # 1e-12 .. 1e-3 rad, so that neighbouring matrices agree to within any isclose()-style tolerance without being equal
+            filler = [[ax, ang + draw(gen.signs())*draw(gen.log_uniform(-12, -3))] for _ in range(n-1)]
         eta = draw(st.one_of(st.just(0.0), gen.fl(-1.0, 1.0), st.sampled_from([-1.0, 1.0, 0.5, -0.5])))
         return {'cls': cls, 'axis': ax, 'angle': ang, 'n': n, 'idx': idx, 'filler': filler, 'eta': eta}
     return build()
@@ -56,7 +60,7 @@ def entries(R, case, method, kw):
     from ahrs import DCM, Quaternion, QuaternionArray
     from ahrs.common import orientation as ori
     idx = case['idx']
-    mats = [oracle.rodrigues(a, t) for a, t in case['filler']]
+    mats = [oracle.rodrigues(a, float(t)) for a, t in case['filler']]
     mats.insert(idx, R)
 
     def batch():
@@ -93,6 +97,8 @@ def evaluate(case, ctx):
     pivot = int(np.argmax(u))
     ctx.label(f'pivot={pivot}')
     ctx.nt(base != 'generic' or pivot != 0)
+    if case['n'] > 1 and all(list(a) == list(case['axis']) for a, _ in case['filler']):
+        ctx.label('batch=slowly_varying')
     in_closed_domain = base in ('generic', 'tiny', 'small', 'near_pi', 'zero', 'right') and ang <= math.pi - 1e-6
     worst = 0.0
     for method, kw in METHODS:
